@@ -120,6 +120,7 @@ func verifBuildWorld(sim *verifsim.Sim) *verifWorld {
 	w.name[u("/notes/n3")] = "n3"
 	w.name[u("/missing")] = "fo"
 	w.put("/empty", map[string]any{"type": "OrderedCollection", "totalItems": 0, "orderedItems": []any{}})
+	w.put("/notes/uni", map[string]any{"type": "Note", "name": "uni", "content": `<p>see <a href="https://⛄☃⛄.example/⛄⛄⛄⛄⛄⛄/☃☃☃☃☃☃☃☃/雪雪雪雪雪雪雪雪雪雪">snow</a></p>`})
 	/* a page of Markdown notes (built side by side when the page is harvested), outside the model's world */
 	mdNotes := []any{}
 	for k := 0; k < 10; k++ {
@@ -192,6 +193,7 @@ func verifBuildWorld2(sim *verifsim.Sim) *verifWorld {
 	w.name[u("/notes/q3")] = "q3"
 	w.name[u("/missing")] = "fo"
 	w.put("/empty", map[string]any{"type": "OrderedCollection", "totalItems": 0, "orderedItems": []any{}})
+	w.put("/notes/uni", map[string]any{"type": "Note", "name": "uni", "content": `<p>see <a href="https://⛄☃⛄.example/⛄⛄⛄⛄⛄⛄/☃☃☃☃☃☃☃☃/雪雪雪雪雪雪雪雪雪雪">snow</a></p>`})
 	/* a page of Markdown notes (built side by side when the page is harvested), outside the model's world */
 	mdNotes := []any{}
 	for k := 0; k < 10; k++ {
@@ -864,7 +866,8 @@ func TestVerifKeys(t *testing.T) {
 	goes to the frame monitors; a draw that panics hands no frame to the terminal at all.
 */
 func verifStatusLine(w *verifWorld, out *verifkit.Trace, sid *int, rng *rand.Rand) {
-	pattern := []byte{'a', 10, 'b', 9, 0x9b, '3', '1', 'm', 'c', 7, 'd', 0x85, ' ', 'e', 10, 10, 'f', 0x90, 'g', 12, 'h', 11}
+	/* (bytes from 0xA0 on are typed as two-byte characters: a cut that counts characters but slices bytes splits them) */
+	pattern := []byte{'a', 10, 'b', 9, 0x9b, '3', '1', 'm', 'c', 7, 'd', 0x85, ' ', 'e', 10, 10, 'f', 0x90, 'g', 12, 'h', 11, 0xe9, 0xfc, 'i', 0xdf, 0xe9, 0xe9, 0xf1}
 	for _, width := range []int{17, 24, 31} {
 		*sid++
 		v := verifNewSession(w, out, *sid, true)
@@ -887,6 +890,22 @@ func verifStatusLine(w *verifWorld, out *verifkit.Trace, sid *int, rng *rand.Ran
 		}
 		v.flushFrames()
 		out.Emit(verifkit.M{"ev": "status", "sid": *sid, "scenario": "command typed key by key", "w": width, "typed": done, "panic": panicked, "what": what})
+	}
+	/* "Opening <address>" cut to every width, for an address made of three-byte characters */
+	for width := 24; width <= 64; width += 1 + rng.Intn(3) {
+		*sid++
+		v := verifNewSession(w, out, *sid, true)
+		if err := v.s.Subcommand("open", w.h.URL("/notes/uni")); err != nil || !v.settle(8*time.Second) {
+			continue
+		}
+		v.resize(width, 8)
+		panicked, what, _ := v.press("1", []byte{'1'})
+		if !panicked {
+			panicked, what, _ = v.press("enter", []byte{'\r'})
+		}
+		v.hookCalls()
+		v.flushFrames()
+		out.Emit(verifkit.M{"ev": "status", "sid": *sid, "scenario": "opening an address of multi-byte characters", "w": width, "typed": 2, "panic": panicked, "what": what})
 	}
 	/* the smallest terminal (two rows), also with nothing highlighted: every mode that has a status line */
 	for _, page := range []string{"/empty", w.startA, "/missing"} {
